@@ -151,7 +151,7 @@ def run(prop, tier):
         ctl_total += 1
         if any(c.startswith(prop + ".") or c.startswith(f"K.{prop}.") for c, _ in v):
             ctl_rejected += 1
-    need = max(1, ctl_total // 4) if prop == "C01" else ctl_total  # C01: swapping in an equally ranked lot is legitimately accepted
+    need = ctl_total
     if ctl_total == 0 or ctl_rejected < need:
         if ctl_total == 0 and not base_ok:
             pass  # nothing accepted at all: reported as violations below
